@@ -211,14 +211,26 @@ def r_cks_reader(model, rep, rule_id="R-CKS-DEFASSIGN", format_only=False):
     ok = ("idx", sp, 0) in t_alts and ("idx", sp, 1) in d_alts
     rep.ob(rule_id, "Checksums.deserialize:type:value", ok, site=cx.site(e.lineno),
            msg="" if ok else "'<type>:<value>' entries must be split on ':' into (type, value)")
-    # bare digests: typed by length; the digest stored is the value itself
-    table = {}
-    for ev in cx.events:
-        if ev.kind == "bind" and ev.value[0] == "const" and isinstance(ev.value[1], str) and ev.guards and ev.loops:
-            g = ev.guards[-1]
-            if g[1] and g[0][0] == "cmp" and g[0][1] == ("==",) and g[0][2][0] == ("call", ("global", "len"), (value,), ()) and g[0][2][1][0] == "const":
-                table[g[0][2][1][1]] = ev.value[1]
+    # bare digests: typed by length; evaluated per scenario (no ':' in the value, len(value) == L), whatever the spelling of
+    # the dispatch (if/elif chain, table lookup)
+    colon = ("cmp", ("in",), (("const", ":"), value))
+    ln = ("call", ("global", "len"), (value,), ())
     want = dict((hashlib.new(a).digest_size * 2, a) for a in ("md5", "sha1", "sha256"))
+    table = {}
+    for L in sorted(want) + [8, 33, 56, 128]:
+        sc = facts.Scenario(cx, atoms={colon: False}, subst={ln: ("const", L)}).assume_context(e)
+        h = sc.holds(e)
+        if h is False:
+            continue
+        tv = sc.term(e.raw)
+        tv = T.unwrap(tv)
+        refused = [ev for ev, hh in sc.events("raise") if hh is True and ev.seq < e.seq]
+        if refused:
+            continue
+        if tv[0] in ("tuple", "list") and len(tv[1]) == 2 and tv[1][0][0] == "const":
+            table[L] = tv[1][0][1]
+        else:
+            table[L] = T.show(tv)[:60]
     ok = table == want
     rep.ob("R-CKS-LEGACY", "Checksums.deserialize:length-table", ok, site=cx.site(f.node),
            msg="" if ok else "bare digests must be typed by length %s (hex digest sizes of hashlib), found %s" % (want, table))
@@ -232,8 +244,11 @@ def r_cks_reader(model, rep, rule_id="R-CKS-DEFASSIGN", format_only=False):
     rep.ob(rule_id, "Checksums.deserialize:split-iff-colon", ok, site=cx.site(f.node),
            msg="" if ok else "the value must be split exactly when it contains ':'")
     # unrecognised bare digests are rejected
-    rej = [ev for ev in cx.events if ev.kind == "raise" and ev.loops and ev.value[0] == "call" and ev.value[1] == ("global", "ValueError")
-           and any(g[1] is False and g[0][0] == "cmp" and g[0][2][0] == ("call", ("global", "len"), (value,), ()) for g in ev.guards)]
+    rej = True
+    for L in (8, 33, 56, 128):
+        sc = facts.Scenario(cx, atoms={colon: False}, subst={ln: ("const", L)}).assume_context(e)
+        r = [ev for ev, hh in sc.events("raise") if hh is True and ev.seq < e.seq and ev.value[0] == "call" and ev.value[1] == ("global", "ValueError")]
+        rej = rej and bool(r)
     rep.ob("R-CKS-LEGACY", "Checksums.deserialize:unknown-length-rejected", bool(rej), site=cx.site(f.node),
            msg="" if rej else "a bare digest whose length is none of 32/40/64 must be rejected (ValueError)")
     # the store is unconditional within the iteration
@@ -304,7 +319,7 @@ def check_c16(model, rep, tier):
     r_checksums_schema(model, rep)
     r_cks_reader(model, rep)
     from .roundtrip import r_fix_path_identity
-    r_fix_path_identity(model, rep, classes=("treeinfo.Checksums",))
+    r_fix_path_identity(model, rep, classes=("treeinfo.Checksums",), relative_clause=True)
     r_img_addcks(model, rep)
     r_val_dead(model, rep)
     r_val_strength_rows(model, rep, [r for r in VAL_OBLIGATIONS if r[0] == "treeinfo.Checksums"], rule_id="R-VAL-STRENGTH")
